@@ -69,6 +69,9 @@ func c16ProgramID(e *Env, i int, id string) *Program {
 		in.File = 1
 	}
 	p.InjBlankImports = []string{"embed", "net/http/pprof", "image/png"}
+	// ... and blank imports of the program's own library packages, which the GOPATH+vendor
+	// layouts resolve from a vendor directory: their paths must be written as the source has them
+	p.BlankLibs = "injector"
 	p.InjRaw = "// copied declarations\nvar copiedVar = map[string]int{\"a\": 1, \"b\": 2}\n\ntype copiedType struct{ A, B int }\n\nfunc copiedFunc(x int) int {\n\ty := x * 2\n\treturn y + len(copiedVar)\n}\n"
 	p.InjRawB = "// copied declarations of the second injector file\nvar copiedVarB = []string{\"x\", \"y\"}\n\nfunc copiedFuncB(s string) int { return len(s) + len(copiedVarB) }\n"
 	p.PkgIdents = append(p.PkgIdents, "copiedVar", "copiedType", "copiedFunc", "copiedVarB", "copiedFuncB")
